@@ -234,12 +234,48 @@ def nc (ts : List String) : String :=
     | _, _ => "bad-op"
   | _, _, _ => "bad-op"
 
+/-- The dialed-peer expectation through `TcpTransport::open` / `dial`: an honest handshake between identity keys `d`
+and `l`, the dialer having been handed `/<host>/tcp/<port>[/p2p/<exp>]`. `env=<word>`: checker mode for facts about
+the sandbox (`unresolved`, `unavailable`, `stalled`): the model has no opinion. -/
+def tp (ts : List String) : String :=
+  match arg? "env" ts with
+  | some w => "D=" ++ w
+  | none =>
+  let host : Option Host := match arg? "host" ts with
+    | some "ip4" => some .ip4 | some "ip6" => some .ip6 | some "dns" => some .dns
+    | some "dns4" => some .dns4 | some "dns6" => some .dns6 | _ => none
+  let via : Option Entry := match arg? "via" ts with
+    | some "open" => some .open | some "dial" => some .dial | _ => none
+  match idx? ts "d", idx? ts "l", arg? "exp" ts, host, via with
+  | some d, some l, some ex, some host, some via =>
+    let expected : Option (Option Nat) := if ex = "none" then some none else (idx? ts "exp").map some
+    match expected with
+    | none => "bad-op"
+    | some expected =>
+      let r := resolve false (run1 E ⟨d, 1, 2⟩ ⟨l, 3, 4⟩ (scripted false .pass .pass .pass))
+      let suffix : DialedAddr := match expected with
+        | none => []
+        | some i => match peerIdOfEncoding E.c (keyEncoding (freePub i)) with
+          | .ok p => [.p2p p]
+          | .error _ => [.other]
+      let addr : DialedAddr := [.host host, .tcp] ++ suffix
+      let okWord := match via with | .open => "opened:" | .dial => "established:"
+      let errWord := match via with | .open => "openfail:" | .dial => "dialfail:"
+      match r.1 with
+      | .ok P _ =>
+        (match transportCheck via addr P with
+         | .ok Q => "D=" ++ okWord ++ peerName Q
+         | .error e => "D=" ++ errWord ++ errClass false e)
+      | other => "D=" ++ errWord ++ showRes [] other
+  | _, _, _, _, _ => "bad-op"
+
 def step (st : State) (line : String) : State × String :=
   match tokens line with
   | "pv" :: rest => (st, pv rest)
   | "hs" :: rest => (st, hs rest)
   | "rg" :: rest => (st, rg rest)
   | "nc" :: rest => (st, nc rest)
+  | "tp" :: rest => (st, tp rest)
   | _ => (st, "bad-op")
 
 end Litep2pVerif.Driver.C01
